@@ -4,6 +4,7 @@
 EXTENDS Argv, TLC, Json
 CONSTANTS Words,      \* set of strings (sequences of naturals)
           Sources,    \* set of source vectors for parsec_argv_insert
+          Dels,       \* numbers of elements parsec_argv_delete is asked to delete
           MaxLen, MaxArgc
 VARIABLES v, hist
 vars == <<v, hist>>
@@ -22,7 +23,7 @@ Next == \/ \E w \in Words : DoAppend(w)
         \/ \E w \in Words, ow \in {0, 1} : DoAppendUnique(w, ow)
         \/ \E a \in Positions, src \in Sources : DoInsert(a, src)
         \/ \E a \in Positions, w \in Words : DoInsertElement(a, w)
-        \/ \E a \in Positions, n \in 0..3 : DoDelete(a, n)
+        \/ \E a \in Positions, n \in Dels : DoDelete(a, n)
 Spec == Init /\ [][Next]_vars
 TypeOK == Len(v) <= MaxArgc + 2
 Emit == (Len(hist) = MaxLen) => PrintT(<<"VH", ToJson(hist)>>)
